@@ -72,25 +72,25 @@ type nodeServerObs struct {
 		Method string `json:"method"`
 		Path   string `json:"path"`
 	} `json:"matched"`
-	Response        *nodeResp `json:"response"`
-	RouteThrew      *nodeErr  `json:"route_handler_threw"`
-	RoutesError     *nodeErr  `json:"routes_error"`
-	RequestError    *nodeErr  `json:"request_error"`
-	Error           string    `json:"error"`
+	Response     *nodeResp `json:"response"`
+	RouteThrew   *nodeErr  `json:"route_handler_threw"`
+	RoutesError  *nodeErr  `json:"routes_error"`
+	RequestError *nodeErr  `json:"request_error"`
+	Error        string    `json:"error"`
 }
 
 type nodeObs struct {
-	ID          string       `json:"id"`
-	OK          *bool        `json:"ok"`
-	ErrClass    string       `json:"error_class"`
-	ErrMsg      string       `json:"error_msg"`
-	Exports     []string     `json:"exports"`
-	LoadError   *nodeLoadErr `json:"load_error"`
-	Requests    []nodeReq    `json:"requests"`
-	Result      any          `json:"result"`
-	HasResult   bool         `json:"-"`
-	ClientError *nodeErr     `json:"client_error"`
-	Construct   *nodeErr     `json:"construct_error"`
+	ID          string         `json:"id"`
+	OK          *bool          `json:"ok"`
+	ErrClass    string         `json:"error_class"`
+	ErrMsg      string         `json:"error_msg"`
+	Exports     []string       `json:"exports"`
+	LoadError   *nodeLoadErr   `json:"load_error"`
+	Requests    []nodeReq      `json:"requests"`
+	Result      any            `json:"result"`
+	HasResult   bool           `json:"-"`
+	ClientError *nodeErr       `json:"client_error"`
+	Construct   *nodeErr       `json:"construct_error"`
 	Server      *nodeServerObs `json:"server"`
 	nodeServerObs
 	Out         any      `json:"out"`
@@ -140,9 +140,9 @@ type c08Case struct {
 	hdrNote    string
 
 	// pipeline state
-	n1, n2   *nodeObs
-	g1, g2   *RunnerObs
-	skip     string
+	n1, n2 *nodeObs
+	g1, g2 *RunnerObs
+	skip   string
 }
 
 func tsFileFor(files map[string]string, f *File, suffix string) string {
@@ -747,7 +747,7 @@ func CheckC08(run *Run) {
 			}
 			sc := map[string]any{"id": id, "kind": "ts_server_call", "file": sf, "service": GoCamelCase(c.svc.Name),
 				"request": map[string]any{"method": rq.Method, "url": u, "headers": hdrList(rq.Header), "body_hex": rq.BodyHex},
-				"script": map[string]any{"result": TsArg(c.resp)}}
+				"script":  map[string]any{"result": TsArg(c.resp)}}
 			if rq.BodyHex == "" {
 				delete(sc["request"].(map[string]any), "body_hex")
 			}
@@ -873,7 +873,7 @@ func CheckC08(run *Run) {
 			}
 			cr := &CaseResult{ID: fmt.Sprintf("%s/%s.%s:%s:%s", h.req.ID, h.svc.Name, h.md.Name, side, h.header), Family: "hdr-helper:" + side,
 				Input: map[string]any{"schema": h.req.ID, "service": h.svc.Name, "method": h.md.Name, "header": h.header, "declared": h.declared, "level": h.level},
-				Obs: obs, OracleHolds: holds, OracleNote: note, NonTrivial: true, Features: []string{"hdr-helper:" + side, "level:" + h.level}}
+				Obs:   obs, OracleHolds: holds, OracleNote: note, NonTrivial: true, Features: []string{"hdr-helper:" + side, "level:" + h.level}}
 			results = append(results, cr)
 			ccs = append(ccs, CoqCase{Term: fmt.Sprintf("(%s, %s, %s)", CoqBool(h.ts), CoqStrList(h.declared), CoqStr(h.header)), Obs: obs})
 		}
@@ -894,7 +894,7 @@ func CheckC08(run *Run) {
 			obs := rc.observation(obs1[rawBase+i])
 			cr := &CaseResult{ID: fmt.Sprintf("%s/%s:raw#%d", rc.req.ID, rc.svc.Name, i), Family: "ts-raw",
 				Input: map[string]any{"schema": rc.req.ID, "service": rc.svc.Name, "verb": rc.verb, "path": rc.path, "query": rc.query, "body": rc.bodyText},
-				Obs: obs, OracleHolds: true, NonTrivial: true, Features: []string{"ts-raw", "verb:" + rc.verb}}
+				Obs:   obs, OracleHolds: true, NonTrivial: true, Features: []string{"ts-raw", "verb:" + rc.verb}}
 			results = append(results, cr)
 			body := "None"
 			if rc.body != nil {
@@ -1140,6 +1140,22 @@ func z3TagsC08(c *c08Case, cr *CaseResult) []string {
 			}
 		}
 	}
+	// Go client -> TS server: the Go client spells an infinite float/double query value "+Inf" / "-Inf"
+	// (fmt), the TS server reads query numbers with Number(), which gives NaN for that spelling
+	if c.pair == pairGoTs && (c.md.Verb == "GET" || c.md.Verb == "DELETE") {
+		if in, _ := c.req.FindMessage(c.md.In); in != nil {
+			for _, f := range in.Fields {
+				if f.Query == nil || (f.Kind != "float" && f.Kind != "double") {
+					continue
+				}
+				fd := c.reqMsg.Descriptor().Fields().ByName(protoreflect.Name(f.Name))
+				if fd != nil && !fd.IsList() && c.reqMsg.Has(fd) && math.IsInf(c.reqMsg.Get(fd).Float(), 0) {
+					tags = append(tags, "z3:go-client-infinity-spelling-unreadable-by-ts-server")
+					break
+				}
+			}
+		}
+	}
 	for _, pv := range rePathVar.FindAllStringSubmatch(c.md.Path, -1) {
 		fd := c.reqMsg.Descriptor().Fields().ByName(protoreflect.Name(pv[1]))
 		if fd == nil {
@@ -1350,7 +1366,7 @@ func (h *hdrCase) goScenario(id string) map[string]any {
 		hc[h.optName] = hdrProbe
 	}
 	return map[string]any{"id": id, "kind": "call", "pkg": h.req.ID, "service": h.svc.Name, "method": h.md.Name, "req": "",
-		"opts": map[string]any{"HelperCall": hc},
+		"opts":        map[string]any{"HelperCall": hc},
 		"canned_resp": map[string]any{"status": 200, "headers": [][2]string{{"Content-Type", "application/json"}}, "body_hex": hexOf("{}")}}
 }
 
